@@ -480,6 +480,42 @@ def run_c08(job):
         for comp in (False, True):
             mm = G.forced_message(rng, ids, [((), (0, 0))] * rng.choice([1, 2]), compressed=comp)
             if mm is not None:
+                mm['directed'] = True
+                pool.append(mm)
+    # directed: a bitmap definition (the template's first one, or a later one) INSIDE a replication that is executed 0..3 times: whatever the
+    # compiler resolves once per template must hold on every repetition (bit counters, back references, markers)
+    for _ in range(10 if quick else 100):
+        e1, e2 = rng.sample([12101, 10004, 7001, 11001, 5001, 1001, 1002], 2)
+        op = rng.choice([222, 224, 223, 225, 232])
+        nb = rng.choice([1, 2])
+        if op == 222:
+            body = [e1, e2, 222000, 101000 + nb, 31031] + [33007] * 1 + [235000]
+        else:
+            mean = 8024 if op == 225 else 8023
+            body = [e1, e2, op * 1000, 101000 + nb, 31031, mean, op * 1000 + 255, 235000]
+        for reps in (2, 3, 1):
+            ids = [100000 + len(body) * 1000 + reps] + body
+            if rng.random() < 0.5:
+                ids = [rng.choice(G.NUMERIC)] + ids + [rng.choice(G.CODES)]
+            bits = tuple(0 for _ in range(nb * reps))
+            for comp in (False, True):
+                mm = None
+                try:
+                    mm = G.forced_message(rng, ids, [((), bits)] * rng.choice([1, 2]), compressed=comp)
+                except R.RefError:
+                    pass
+                if mm is not None:
+                    mm['directed'] = True
+                    pool.append(mm)
+        # the same body under a delayed replication
+        ids = [100000 + len(body) * 1000, 31001] + body
+        for cnt in (0, 2, 3):
+            try:
+                mm = G.forced_message(rng, ids, [((cnt,), tuple(0 for _ in range(nb * cnt)))], compressed=False)
+            except R.RefError:
+                mm = None
+            if mm is not None:
+                mm['directed'] = True
                 pool.append(mm)
     datas = []
     for m in pool:
@@ -492,7 +528,9 @@ def run_c08(job):
         order = list(range(len(datas)))
         rng.shuffle(order)
         if quick:
-            order = order[:120]
+            # the directed families are always run; the generated pool is sampled
+            order = [k for k in order if datas[k][0].get('directed')] + [k for k in order if not datas[k][0].get('directed')][:120]
+            rng.shuffle(order)
         for k in order:
             m, data = datas[k]
             t.case('decode.cache%d' % size, msg_key(m), nontrivial=(size == 0), sample=msg_sample(m))
@@ -633,6 +671,10 @@ def run_c09(job):
         data, _ = R.ref_encode(m['json'])
         r = safe(dec.process, data)
         if r[0] != 'ok':
+            r0 = safe(dec.process, data, '<s>', b'BUFR', False, False, False)
+            if r0[0] == 'ok':
+                t.violation('C09', 'the hierarchical view of a decodable message cannot be built: %r' % (r[1],), msg_input(m), observed=r[2],
+                            key='C09.wire.fail|' + type(r[1]).__name__)
             continue
         check(r[1], data, 'generated', msg_input(m), any(d // 1000 == 221 for d in m['ids']))
         rm = R.RefDecoder(data, fallback=False).decode()
@@ -641,6 +683,31 @@ def run_c09(job):
             dd = O.nested_diff(O.norm_real_nested(nest[i]), O.norm_ref_nested(rm.structures[i], rm.subsets[i]['values']))
             if dd:
                 t.violation('C09', 'subset %d: hierarchical view differs from the expected one: %s' % (i, dd), msg_input(m), key='C09.view|' + keyof(m, 'nest'))
+                break
+    # directed: uncompressed messages of 2-3 subsets whose template leaves an operator in force at its end (open 204 / 221 / 222000 ...):
+    # the hierarchical view of every subset is built from that subset alone
+    for _ in range(60 if quick else 800):
+        m = gen_c06_message(rng, rng.choice([2, 2, 3]))
+        t.case('directed.multi-subset', msg_key(m) + (tuple(len(v) for v in m['values']),), sample=msg_sample(m))
+        try:
+            data, _ = R.ref_encode(m['json'])
+        except R.RefError:
+            continue
+        r = safe(dec.process, data)
+        if r[0] != 'ok':
+            r0 = safe(dec.process, data, '<s>', b'BUFR', False, False, False)
+            if r0[0] == 'ok':
+                t.violation('C09', 'the hierarchical view of a decodable %d-subset message cannot be built: %r' % (m['nsub'], r[1]), msg_input(m),
+                            observed=r[2], key='C09.wire.fail|' + type(r[1]).__name__)
+            continue
+        check(r[1], data, 'multi-subset', msg_input(m), any(d // 1000 == 221 for d in m['ids']))
+        rm = R.RefDecoder(data, fallback=False).decode()
+        nest = nested_of(r[1])
+        for i in range(rm.n_subsets):
+            dd = O.nested_diff(O.norm_real_nested(nest[i]), O.norm_ref_nested(rm.structures[i], rm.subsets[i]['values']))
+            if dd:
+                t.violation('C09', 'subset %d of %d: hierarchical view differs from the expected one: %s' % (i, rm.n_subsets, dd), msg_input(m),
+                            key='C09.view.multi|' + keyof(m, 'nest'))
                 break
     # directed: operators that occupy a flat slot and are followed by more elements (237255, 235000, 236000 ...)
     for _ in range(10 if quick else 100):
